@@ -145,7 +145,11 @@ SplineOK(e) ==
                             LET W == EvalAcc(e.t, e.k, U, v.m, Const(v.x.re, NS), TRUE, 0, ZeroW(NS), NS)
                                 nm == "y" \o ToString(j - 1)
                             IN FClose(G(v.res, nm), W.re, FAdd(W.sre, FOne)))
-EventOK(e) == IF e.op = "basis" THEN (Prop = "C15" \/ (BasisOK(e) /\ DualBasisOK(e))) ELSE (Prop = "C14" \/ SplineOK(e))
+\* one outermost call of bsplev_single_f64 / bspldnev_single_f64 recorded while the repository's own tests run
+Basis1OK(e) == IF ~Admissible(e.t, e.k) \/ e.i + e.k >= Len(e.t) THEN TRUE          \* outside the property's quantifier: not judged
+               ELSE LET want == DBasis(e.t, e.i, e.k, e.m, e.x) IN
+                    FClose(e.val, want.v, want.s) /\ (e.m >= e.k => FEq(e.val, FZ))
+EventOK(e) == IF e.op = "basis1" THEN (Prop = "C15" \/ Basis1OK(e)) ELSE IF e.op = "basis" THEN (Prop = "C15" \/ (BasisOK(e) /\ DualBasisOK(e))) ELSE (Prop = "C14" \/ SplineOK(e))
 VARIABLES i, ok
 vars == <<i, ok>>
 Init == i \in 1..Len(Rec) /\ ok = EventOK(Rec[i])
